@@ -69,6 +69,8 @@ impl ConnectionRunner {
         let clean_up_data = ConnectionCleanupData {
             announced_info_hashes: Default::default(),
             ip_version: self.ip_version,
+            out_message_consumer_id: self.out_message_consumer_id,
+            connection_id: self.connection_id,
             #[cfg(feature = "metrics")]
             opt_peer_client: Default::default(),
             #[cfg(feature = "metrics")]
@@ -620,6 +622,8 @@ impl<S: futures::AsyncRead + futures::AsyncWrite + Unpin> ConnectionWriter<S> {
 struct ConnectionCleanupData {
     announced_info_hashes: Rc<RefCell<HashMap<InfoHash, PeerId>>>,
     ip_version: IpVersion,
+    out_message_consumer_id: ConsumerId,
+    connection_id: ConnectionId,
     #[cfg(feature = "metrics")]
     opt_peer_client: Rc<RefCell<Option<PeerClientGauge>>>,
     #[cfg(feature = "metrics")]
@@ -651,6 +655,8 @@ impl ConnectionCleanupData {
             let message = SwarmControlMessage::ConnectionClosed {
                 ip_version: self.ip_version,
                 announced_info_hashes,
+                out_message_consumer_id: self.out_message_consumer_id,
+                connection_id: self.connection_id,
             };
 
             control_message_senders
